@@ -37,3 +37,21 @@ lay3['Key_k_Normal'] = 'খ'
 lay3['Key_K_Normal'] = 'ক'
 lay3['Key_e_Normal'] = 'ে'
 write('layout_alt.json', lay3, 'verif alternative layout')
+
+# tiny_db: small data directory for deep history searches. Every word over {a,s,e,r} collides
+# with something: dictionary hits, auto-correct hits, base+suffix splits.
+import os, shutil
+os.makedirs('tiny_db', exist_ok=True)
+dic = json.load(open('/repo/data/dictionary.json'))
+tables = ['a','aa','e','oi','o','nya','y','s','sh','ss','i','ii','rri','h','r','rr','rrh']
+tiny = {}
+for t in dic:
+    if t in tables:
+        tiny[t] = [w for w in dic[t] if len(w) <= 3]
+    else:
+        tiny[t] = dic[t][:2]
+json.dump(tiny, open('tiny_db/dictionary.json','w'), ensure_ascii=False, sort_keys=True)
+shutil.copy('/repo/data/suffix.json', 'tiny_db/suffix.json')
+json.dump({"rss": "ar.`es.`es", "aes": "eyas", "sa": "sha", "are": "are", "ser": "shera", "asr": "asOr", "ase": "asche"},
+          open('tiny_db/autocorrect.json','w'), ensure_ascii=False, sort_keys=True)
+print('tiny words', sum(len(v) for v in tiny.values()))
